@@ -117,7 +117,7 @@ def sortStrings (xs : List String) : List String :=
 
 def showOptVal : Option String → String
   | none => "~"
-  | some v => "x" ++ v
+  | some v => if v.isEmpty then "~" else "x" ++ v    -- empty value: rendered as nil (see harness)
 
 def showGroup (by_ : Bool) (g : Group) : String :=
   let ss := g.series.map showSeries
@@ -126,6 +126,16 @@ def showGroup (by_ : Bool) (g : Group) : String :=
 
 def showList (xs : List String) (sep : String) : String :=
   if xs.isEmpty then "ok -" else "ok " ++ sep.intercalate xs
+
+/-- two series with data whose group-key tuples differ share one sort key: which of them
+    leads the merged group (and so the reported PartitionKeyVals) depends on the internal
+    order of `sort.Slice` (not stable) — not predicted by the model -/
+def actualCollision (q : GroupReq) (rows : List Row) : Bool :=
+  q.by_ &&
+  let live := rows.filter fun r => q.allTime || hasPoints blockSize q.start q.stop r
+  live.any fun a => live.any fun b =>
+    sortKey q.keys q.nilLo a.tags == sortKey q.keys q.nilLo b.tags &&
+      Spec.C21.tuple q.keys a.tags != Spec.C21.tuple q.keys b.tags
 
 def step (rows : List Row) (toks : List String) : List Row × String :=
   match parseOp toks with
@@ -189,16 +199,6 @@ def collisionProne (q : GroupReq) (rows : List Row) : Bool :=
     match tagGet r.tags k with
     | some v => collidingValue q.nilLo v
     | none => false
-
-/-- two series with data whose group-key tuples differ share one sort key: which of them
-    leads the merged group (and so the reported PartitionKeyVals) depends on the internal
-    order of `sort.Slice` (not stable) — not predicted by the model -/
-def actualCollision (q : GroupReq) (rows : List Row) : Bool :=
-  q.by_ &&
-  let live := rows.filter fun r => q.allTime || hasPoints blockSize q.start q.stop r
-  live.any fun a => live.any fun b =>
-    sortKey q.keys q.nilLo a.tags == sortKey q.keys q.nilLo b.tags &&
-      Spec.C21.tuple q.keys a.tags != Spec.C21.tuple q.keys b.tags
 
 structure OState where
   rows : List Row := []
